@@ -91,7 +91,7 @@ def average_mutual_information(cellular_automaton, temporal_distance=1):
              in bits
     """
     num_cols = cellular_automaton.shape[1]
-    if not (0 < temporal_distance < num_cols):
+    if not (0 < temporal_distance < cellular_automaton.shape[0]):
         raise ValueError("the temporal distance must be greater than 0 and less than the number of time steps")
     mutual_informations = []
     for i in range(0, num_cols):
